@@ -494,14 +494,24 @@ func genRT(pr rtProfile) func(r *rand.Rand, w *W) [][]string {
 				kind := pick(r, []string{"prefix", "prefix", "resource"})
 				pat := base + "/z" + pick(r, []string{"", "/{id}"})
 				ops = append(ops, append([]string{kind, fid, "r", pat}, list(newMws(1)...)...))
-				tgt := fid
+				tgt, tgtIsPrefix, full := fid, kind == "prefix", pat
 				if kind == "prefix" && r.Intn(2) == 0 {
 					tgt = fid + "n"
-					ops = append(ops, append([]string{pick(r, []string{"prefix", "resource"}), tgt, fid, "/n"}, list(newMws(1)...)...))
+					k2 := pick(r, []string{"prefix", "resource"})
+					tgtIsPrefix = k2 == "prefix"
+					full += "/n"
+					ops = append(ops, append([]string{k2, tgt, fid, "/n"}, list(newMws(1)...)...))
 				}
 				ops = append(ops, append([]string{"use"}, list(newMws(2)...)...))
 				hid++
-				ops = append(ops, append([]string{"handle", tgt, pick(r, []string{"/late", "", "/l/{x}"}), "h" + itoa(hid)}, append(list(newMws(1)...), list("GET")...)...))
+				hp := pick(r, []string{"/late", "", "/l/{x}"})
+				if tgtIsPrefix {
+					full += hp
+				}
+				ops = append(ops, append([]string{"handle", tgt, hp, "h" + itoa(hid)}, append(list(newMws(1)...), list("GET")...)...))
+				concrete := strings.NewReplacer("{id}", "5", "{x}", "7").Replace(full)
+				ops = append(ops, []string{"serve", "GET", concrete}, []string{"serve", "OPTIONS", concrete}, []string{"serve", "POST", concrete})
+				pool = append(pool, full)
 				observe()
 				w.Count("shape-facade-before-use")
 			default: // '-' parameters with alternations
@@ -694,6 +704,25 @@ func genRT(pr rtProfile) func(r *rand.Rand, w *W) [][]string {
 							v := pick(r, valuePool)
 							if pr.braceValues && r.Intn(5) == 0 {
 								v = pick(r, []string{"{id}", "{name}", "{p}", "{q}", "{v}", "{a}", "{b}", "{path}", "{x", "}", "{id:\\d+}"})
+							}
+							if pr.braceValues && r.Intn(4) == 0 {
+								// a value that spells one of the pattern's own tokens: substitution must not look at it again
+								var toks []string
+								for q := p; ; {
+									i := strings.IndexByte(q, '{')
+									if i < 0 {
+										break
+									}
+									j := strings.IndexByte(q[i:], '}')
+									if j < 0 {
+										break
+									}
+									toks = append(toks, q[i:i+j+1])
+									q = q[i+j+1:]
+								}
+								if len(toks) > 0 {
+									v = pick(r, toks)
+								}
 							}
 							kv = append(kv, k, v)
 						}
